@@ -565,6 +565,35 @@ def plain_mc(chk, module, name, cfg, workers=4, timeout=2400, env=None):
     return mc
 
 
+def replay_as_notes(chk, mc, name):
+    """behaviour beyond the listed properties: replayed like any other configuration, but a disagreement is recorded as a
+    note in the evidence and never raises the property's alarm"""
+    from mc import _replay_guarded
+    args = ["replay", "--in", mc.replay_path, "--seed", str(chk.seed)]
+    out, t, crashed = _replay_guarded(chk, args, mc.replay_path, name)
+    summary, mism = None, []
+    for line in nl_lines(out):
+        if not line.startswith("{"):
+            continue
+        d = json.loads(line)
+        if "summary" in d:
+            summary = d["summary"]
+        elif "mismatch" in d:
+            mism.append(d["mismatch"])
+    if summary is None or summary["n"] + crashed != mc.n_replay:
+        tool_error("replay of %s incomplete" % name)
+    if summary["nontrivial"] == 0:
+        tool_error("vacuity guard: %s has no non-trivial behaviour" % name)
+    for m in mism[:5]:
+        chk.notes.append("beyond the listed properties, %s: the real code disagrees with the specification: %s" % (name, json.dumps(m, sort_keys=True)[:400]))
+    chk.add_tlc("MC:" + name, mc.res, {"behaviours_replayed": summary["n"], "executions_in_real_code": summary["executions"],
+                                       "mismatches_recorded_as_notes": summary["mismatches"], "replay_s": round(t, 1)})
+    chk.cov["traces_validated_against_impl"] += summary["n"]
+    chk.cov["evaluations"] += summary["executions"]
+    if os.path.exists(mc.replay_path):
+        os.remove(mc.replay_path)
+
+
 def C15(chk):
     q = chk.tier == "quick"
     m = 6 if q else 7
@@ -600,6 +629,11 @@ def C15(chk):
         mc = plain_mc(chk, "MC_PropFile", "c15-propfile", cfg, workers=4)
         if mc:
             replay(chk, mc, "MC_PropFile (UnicodeGen<Script> + UcdTableGen) x 4 bases")
+        # beyond the listed properties: the UNICODE_VERSION generator against Version.tla (disagreements are notes, not C15 violations)
+        cfgv = "SPECIFICATION Spec\nCONSTANTS\n  MaxLen = %d\nINVARIANT Laws\nINVARIANT Emit\nCHECK_DEADLOCK FALSE\n" % (5 if q else 6)
+        mcv = plain_mc(chk, "MC_Version", "c15-version", cfgv, workers=4)
+        if mcv:
+            replay_as_notes(chk, mcv, "MC_Version (every text over 6 characters up to length %d) x 3 surroundings" % (5 if q else 6))
     finally:
         import shutil
         shutil.rmtree(scratch, ignore_errors=True)
